@@ -14,7 +14,7 @@ class Work:
         from reactivex.scheduler.eventloop import AsyncIOScheduler, AsyncIOThreadSafeScheduler
 
         sc = self.sc
-        loop = aio.make_loop(sim, shim)
+        loop = self.loop = aio.make_loop(sim, shim)
         safe = sc["scheduler"] == "threadsafe"
         s = (AsyncIOThreadSafeScheduler if safe else AsyncIOScheduler)(loop)
         acts = self.acts
@@ -68,6 +68,24 @@ class Work:
                 else:
                     dispose(op[1])
             sim.spawn(loop_main, "loop", "work")
+        elif mode == "mixed":
+            # every call in a context of its own: before the loop starts ("pre"), from a loop callback ("loop"), or on a foreign
+            # thread while the loop runs ("foreign") - an action scheduled in one context is disposed from another
+            for op in sc["ops"]:
+                if op[3] == "pre":
+                    schedule(op[1]) if op[0] == "sched" else dispose(op[1])
+                elif op[3] == "loop":
+                    loop.call_later((op[2] + 1) / 1000.0, (lambda a=op[1]: schedule(a)) if op[0] == "sched" else (lambda i=op[1]: dispose(i)))
+            sim.spawn(loop_main, "loop", "work")
+
+            def foreign_mixed():
+                t = 0
+                for op in sorted([o for o in sc["ops"] if o[3] == "foreign"], key=lambda o: o[2]):
+                    sim.sleep((op[2] + 1 - t) / 1000.0)
+                    t = op[2] + 1
+                    schedule(op[1]) if op[0] == "sched" else dispose(op[1])
+
+            sim.spawn(foreign_mixed, "foreign", "work")
         else:  # foreign thread while the loop is running
             sim.spawn(loop_main, "loop", "work")
 
@@ -97,7 +115,8 @@ class Prop:
     time_unit = "simulated seconds"
     rule = ("1-3 immediate / relative schedules on AsyncIOScheduler (scheduled and disposed from loop callbacks) and on "
             "AsyncIOThreadSafeScheduler (scheduled and disposed by a foreign controlled thread while the loop runs, or before the loop "
-            "starts), dispose calls at seeded simulated instants, 0-3 forced pre-emptions (site-first sampling; the window between the "
+            "starts, or each call in a context of its own - before the loop starts / in a loop callback / on a foreign thread - so that an "
+            "action scheduled in one is disposed from another), dispose calls at seeded simulated instants, 0-3 forced pre-emptions (site-first sampling; the window between the "
             "loop's cancelled-check and the callback is a yield point), spurious wake-ups of the loop's wait. Checked: actions run on the "
             "loop thread, not before their due time, at most once, and an action never starts after dispose() on its disposable returned. "
             "Distinct = (mode, ops, context-switch sequence); non-trivial = at least one dispose raced a pending action (dispose issued "
@@ -108,8 +127,18 @@ class Prop:
     real = ["reactivex/scheduler/eventloop/asyncioscheduler.py", "reactivex/scheduler/eventloop/asynciothreadsafescheduler.py", "asyncio.BaseEventLoop bookkeeping (call_soon, call_later, handles, run_forever, stop)"]
 
     def generate(self, rng, tier):
-        mode = rng.choice(["loop_thread", "not_running", "foreign", "foreign", "foreign"])
+        mode = rng.choice(["loop_thread", "not_running", "foreign", "foreign", "foreign", "mixed", "mixed"])
         n = rng.randrange(1, 4)
+        if mode == "mixed":
+            ops = []
+            for i in range(n):
+                ctx = rng.choice(["pre", "loop", "foreign"])
+                t = rng.choice([0, 0, 1, 3])
+                ops.append(["sched", {"id": i, "ms": rng.choice([None, None, 1, 2, 5, 10])}, t, ctx])
+                if rng.random() < 0.85:
+                    dctx = rng.choice(["loop", "foreign", "foreign"] + (["pre"] if ctx == "pre" else []))
+                    ops.append(["dispose", i, t + rng.choice([0, 0, 0, 1, 2, 4, 5, 9, 10, 11]), dctx])
+            return {"mode": mode, "scheduler": "threadsafe", "ops": ops, "sched": th.gen_sched(rng, ks=(0, 1, 2, 3, 3), spurious_p=0.3, sweep_p=0.02, stall_p=0.3)}
         ops = []
         for i in range(n):
             ms = rng.choice([None, None, 1, 2, 5, 10])
@@ -122,7 +151,7 @@ class Prop:
                 t += op[2]
                 op[2] = t + 1
         return {"mode": mode, "foreign_sets_loop": rng.random() < 0.5, "scheduler": "plain" if mode == "loop_thread" and rng.random() < 0.6 else "threadsafe", "ops": ops,
-                "sched": th.gen_sched(rng, ks=(0, 1, 2, 3, 3), spurious_p=0.3, sweep_p=0.02)}
+                "sched": th.gen_sched(rng, ks=(0, 1, 2, 3, 3), spurious_p=0.3, sweep_p=0.02, stall_p=0.3)}
 
     def execute(self, sc):
         if sc["sched"].get("sweep") and "cps" not in sc:
@@ -152,6 +181,8 @@ class Prop:
             bad(sim.failure[0], sim.failure[1])
         if sim.thread_errors:
             bad("thread-exception", repr(sim.thread_errors[0]))
+        if w.loop.callback_errors and not sim.failure:
+            bad("thread-exception", "escaped a loop callback: %r" % (w.loop.callback_errors[0],))
         for a in acts:
             if a["runs"] > 1:
                 bad("ran-twice", "action %s ran %d times" % (a["id"], a["runs"]))
